@@ -28,6 +28,7 @@ fn main() {
         "cli" => h::eng_cli::main(rest),
         "keys" => h::eng_keys::main(rest),
         "capi" => h::eng_capi::main(rest),
+        "mem" => h::eng_mem::main(rest),
         e => {
             eprintln!("unknown engine {e}");
             std::process::exit(2);
